@@ -149,6 +149,18 @@ let () = iter_lines (fun line ->
            let c0 = h2v2_fancy_c b a (nat_of_int n) and c1 = h2v2_fancy_c b d (nat_of_int n) in
            Printf.printf "ok %s %s%s%s\n" (hex c0) (hex c1) (chk c0 (h2v2_fancy_simd v b a (nat_of_int n))) (chk c1 (h2v2_fancy_simd v b d (nat_of_int n)))
        | _ -> print_endline "?")
+  | "pp" :: _ ->
+      (* documented geometry of a libjpeg-API decode: rows of output_width * bytes-per-pixel, output_height rows *)
+      let num = gz t "num" and den = gz t "den" in
+      let hh = int_of_z (tjscaled (gz t "h") num den) and sw = int_of_z (tjscaled (gz t "w") num den) in
+      let ss = if gs t "src" = "gray" then 3 else gi t "ss" in
+      let single = ss = 3 in
+      let align = int_of_z (crop_align num den (samp_h (z_of_int ss)) single) in
+      let cx = gi t "cx" and cw = gi t "cw" in
+      let ow = if cw > 0 then cw + cx - (cx / align * align) else sw in
+      let bpp = if gi t "quant" > 0 then 1 else (match gi t "cs" with 0 -> 3 | 1 -> 2 | 2 -> 4 | _ -> 1) in
+      let sk = gi t "sk" in
+      Printf.printf "ok total=%d rowbytes=%d full\n" (if sk > 0 && sk < hh then hh - sk else hh) (ow * bpp)
   | "r565" :: _ ->
       (* every row of every color_convert call ends at 2*width whatever its alignment (C11_rgb565_row_exact) *)
       let w = gz t "w" in
